@@ -33,6 +33,18 @@ PROPS = {
     "C01": dict(pkg="c01", level="exploration",
                 quick=[R(checks=1200)],
                 thorough=[R(checks=6000, shards=16, timeout=1500)]),
+    "C02": dict(pkg="c02", level="exploration",
+                quick=[R(checks=1200)],
+                thorough=[R(checks=6000, shards=16, timeout=1500)]),
+    "C05": dict(pkg="c05", level="exploration",
+                quick=[R(checks=800)],
+                thorough=[R(checks=4000, shards=16, timeout=1500)]),
+    "C08": dict(pkg="c08", level="exploration",
+                quick=[R(checks=1500)],
+                thorough=[R(checks=6000, shards=16, timeout=1500)]),
+    "C09": dict(pkg="c09", level="exploration",
+                quick=[R(checks=1200)],
+                thorough=[R(checks=6000, shards=16, timeout=1500)]),
 }
 
 ASSUMPTIONS = {
